@@ -120,7 +120,9 @@ def region_env(a, sl):
 
 def describe(template, args):
     a = [int(x) for x in args]
-    def s64(v): return v - (1 << 64) if v >> 63 else v
+    def s64(v):
+        v &= (1 << 64) - 1
+        return v - (1 << 64) if v >> 63 else v
     out = ['// pointer size %d' % a[0], 'pub type T {']
     out.append('    %svftable {' % ('#[size(%d)] ' % s64(a[3]) if a[2] else ''))
     for k in range(min(a[1], 4)):
